@@ -256,9 +256,17 @@ def mc_main_execution(spec):
                 return sc['bad_value']
             return sc['ok'][ordinal][idx]
     MC.np = make_np_proxy(real_np, script)
+    if spec.get('cpu_count'):
+        # environment answer: the number of CPUs the pool sizing sees (rebinding the name `os` inside the MC module only)
+        import types
+        real_os = MC.os
+        fake = types.ModuleType('os')
+        fake.__dict__.update(real_os.__dict__)
+        fake.cpu_count = lambda: int(spec['cpu_count'])
+        MC.os = fake
     if not spec.get('real_pool'):
         concurrent.futures.ProcessPoolExecutor = poolx.ControlledPool
-        poolx.CURRENT['assignment'] = list(spec['assignment'])
+        poolx.CURRENT['assignment'] = spec['assignment'] if isinstance(spec['assignment'], dict) else list(spec['assignment'])
     real_np.random.seed(int(spec.get('seed', 0)))
     res = {'main_exc': None}
     cwd0, argv0 = os.getcwd(), list(sys.argv)
@@ -267,6 +275,8 @@ def mc_main_execution(spec):
     except BaseException as e:  # noqa
         res['main_exc'] = f'{type(e).__name__}: {e}'
     res['outcomes'] = [(o[0], o[1], o[2][0], o[2][1], o[3]) for o in (poolx.CURRENT.get('outcomes') or [])]
+    res['chunks'] = poolx.CURRENT.get('chunks')
+    res['assignment_used'] = poolx.CURRENT.get('assignment_used')
     try:
         with open(out) as f:
             res['file'] = f.read()
